@@ -389,6 +389,12 @@ pub open spec fn ascii_bytes(s: Seq<u8>) -> bool { forall|i: int| 0 <= i < s.len
                         // O-NOSKIP (C10, C16): every non-empty line of the head has become exactly one header (or ended the
                         // request with an error): no line is skipped, none is entered twice
                         headers@.len() == nlines,   // [C10,C16]
+//@after 2 self . read_next_line ( )
+                    let ghost raw_line = line@;   // the head line as it came off the wire (CRLF removed)
+//@before 1 break
+                        // O-HEADEND (C16): the head ends at an EMPTY line only.  A line of spaces/tabs is an (empty) obsolete
+                        // fold, not the end of the head: it must go to the header parser, which refuses it
+                        proof { assert(raw_line.len() == 0); }   // [C16]
 //@after? 1 if line.is_empty()
                     proof { nlines = nlines + 1; }
 //@after? 1 headers.push
@@ -456,10 +462,16 @@ pub open spec fn ascii_bytes(s: Seq<u8>) -> bool { forall|i: int| 0 <= i < s.len
             // this Verus loses the link between `*self` and `final(self)` after a `match` whose guarded arms
             // assign to a field of `*self` (minimal reproduction kept in notes/verus_match_guard_final.rs.txt).
             proof {
+                // O-RAWLAST (C09): a request that was given the raw connection reader (no length or chunk framing in front of
+                // it, nothing to drain when it is dropped) is the last one read from this connection: whatever the application
+                // leaves unread of those bytes is never parsed as a request
+                assert(f_upgrade(rq.hdrs()) ==> self.closing());   // [C09,C12]
+            }
+            proof {
                 // O-PERSIST (C12): the persistence decision, from the property statement
-                assert(self.closing() == conn_ends(rq.version(), rq.hdrs()));
+                assert(self.closing() == conn_ends(rq.version(), rq.hdrs()));   // [C12]
                 // C01: the delivered request owns the writer issued last, and it is unanswered
-                assert(self.sink_last() == Some(rq.writer_chan()) && !rq.answered());
+                assert(self.sink_last() == Some(rq.writer_chan()) && !rq.answered());   // [C01]
             }
 //@closure ~equiv("Connection")~ |h: &&Header| -> (b: bool) ensures b == hdr_is(**h, "Connection"@)
 //@closure ~h.value.as_str()~ |h: &Header| -> (o: &str) ensures o@ == h.value@
